@@ -494,4 +494,156 @@ theorem digitsGo_natDigits (pd : Bool) (n : Nat) : digitsGo pd 0 (natDigits n) =
     Nat.ofDigitChars_ten_toDigits]
 
 
+/-! ### The feed-back spelling of an integer index reads back as the same integer -/
+
+theorem digit_not_space {c : Char} (h : c.isDigit = true) : isSpace c = false := by
+  have := isDigit_of_char h
+  simp [isDigit, inR] at this
+  simp [isSpace, inR]; omega
+
+theorem natDigits_all (n : Nat) : ∀ c ∈ natDigits n, c.isDigit = true := fun c hc =>
+  Nat.isDigit_of_mem_toDigits (by decide) (by decide) hc
+
+theorem dropWhile_head_false (p : Char → Bool) (c : Char) (cs : List Char) (h : p c = false) :
+    (c :: cs).dropWhile p = c :: cs := by simp [List.dropWhile, h]
+
+/-- `strip` leaves a text alone whose first and last characters are not whitespace. -/
+theorem strip_id (s : List Char) (c d : Char) (hh : s.head? = some c) (hc : isSpace c = false)
+    (hl : s.reverse.head? = some d) (hd : isSpace d = false) : strip s = s := by
+  unfold strip lstrip rstrip
+  cases s with
+  | nil => simp at hh
+  | cons x xs =>
+    simp at hh; subst hh
+    rw [dropWhile_head_false _ _ _ hc]
+    cases hr : (x :: xs).reverse with
+    | nil => simp at hr
+    | cons y ys =>
+      rw [hr] at hl; simp at hl; subst hl
+      rw [dropWhile_head_false _ _ _ hd, ← hr]; simp
+
+theorem fbSpell_ends (k : Int) : ∃ c d, (fbSpell k).head? = some c ∧ isSpace c = false ∧
+    (fbSpell k).reverse.head? = some d ∧ isSpace d = false := by
+  have key : ∀ (pre : List Char) (n : Nat), ∃ d, (pre ++ natDigits n).reverse.head? = some d ∧ isSpace d = false := by
+    intro pre n
+    have hne : natDigits n ≠ [] := Nat.toDigits_ne_nil
+    cases hr : (natDigits n).reverse with
+    | nil => simp at hr; exact absurd hr hne
+    | cons y ys =>
+      refine ⟨y, by simp [List.reverse_append, hr], ?_⟩
+      have : y ∈ natDigits n := List.mem_reverse.mp (by rw [hr]; simp)
+      exact digit_not_space (natDigits_all n y this)
+  unfold fbSpell
+  split
+  · obtain ⟨d, h1, h2⟩ := key ['+'] k.toNat
+    exact ⟨'+', d, by simp, by decide, by simpa using h1, h2⟩
+  · split
+    · exact ⟨'0', '0', by simp, by decide, by simp, by decide⟩
+    · obtain ⟨d, h1, h2⟩ := key ['-'] (-k).toNat
+      exact ⟨'-', d, by simp, by decide, by simpa using h1, h2⟩
+
+theorem pyIntBody_fbSpell (k : Int) : pyIntBody (fbSpell k) = some k := by
+  unfold fbSpell
+  split
+  · rename_i h
+    simp only [pyIntBody, digitsGo_natDigits]
+    simp; omega
+  · split
+    · rename_i h1 h2
+      have : k = 0 := by simpa using h2
+      subst this; decide
+    · rename_i h1 h2
+      simp only [pyIntBody, digitsGo_natDigits]
+      have : k ≠ 0 := by simpa using h2
+      simp; omega
+
+/-- `int()` reads the feed-back spelling of `k` back as `k` (unless CPython's digit limit refuses it). -/
+theorem pyInt_fbSpell (k : Int) (hd : tooManyDigits (fbSpell k) = false) : pyInt (fbSpell k) = some k := by
+  obtain ⟨c, d, h1, h2, h3, h4⟩ := fbSpell_ends k
+  unfold pyInt
+  rw [strip_id _ c d h1 h2 h3 h4, hd]
+  simp [pyIntBody_fbSpell]
+
+theorem fbSpell_not_quoted (k : Int) (q : Char) (hq : q = '\'' ∨ q = '"' ∨ q = '`') : quoted q (fbSpell k) = false := by
+  have key : ∀ (s : List Char) (c : Char), s.head? = some c → c ≠ q → quoted q s = false := by
+    intro s c hs hc
+    cases s with
+    | nil => simp at hs
+    | cons x xs =>
+      simp at hs; subst hs
+      have : (q == x) = false := by simp; exact fun h => hc h.symm
+      simp [quoted, startsWith, stripPrefix, this]
+  unfold fbSpell
+  split
+  · exact key _ '+' (by simp) (by rcases hq with rfl | rfl | rfl <;> decide)
+  · split
+    · exact key _ '0' (by simp) (by rcases hq with rfl | rfl | rfl <;> decide)
+    · exact key _ '-' (by simp) (by rcases hq with rfl | rfl | rfl <;> decide)
+
+theorem indexOf_fbSpell (kind : Kind) (hk : kind = .variable ∨ kind = .parameter ∨ kind = .error) (k : Int)
+    (hd : tooManyDigits (fbSpell k) = false) : indexOf kind (some (fbSpell k)) = some (.int k) := by
+  have h1 : (kind == Kind.function || kind == Kind.keyword) = false := by
+    rcases hk with rfl | rfl | rfl <;> decide
+  unfold indexOf
+  rw [h1]
+  simp only [Bool.false_eq_true, if_false, fbSpell_not_quoted k '\'' (Or.inl rfl), fbSpell_not_quoted k '"' (Or.inr (Or.inl rfl)),
+    fbSpell_not_quoted k '`' (Or.inr (Or.inr rfl)), Bool.or_self, pyInt_fbSpell k hd]
+
+/-- A term whose index is an integer keeps its meaning through the feed-back spelling. -/
+theorem respell_stable_int (kind : Kind) (hk : kind = .variable ∨ kind = .parameter ∨ kind = .error) (n : List Char)
+    (ix : Option IdxR) (k : Int) (h : indexOf kind (idxText ix) = some (.int k)) (hd : tooManyDigits (fbSpell k) = false) :
+    spellTok tSpell (respell fbSpell kind n ix) = respell tSpell kind n ix := by
+  unfold respell
+  rw [h]
+  simp only [spellTok, respell, idxText, indexOf_fbSpell .variable (Or.inl rfl) k hd]
+
+theorem indexOf_quoted (q : List Char) (hq : (quoted '\'' q || quoted '"' q) = true) :
+    indexOf .variable (some q) = some (.str q) := by
+  unfold indexOf
+  simp [hq]
+
+theorem respell_stable_str (kind : Kind) (n : List Char) (ix : Option IdxR) (q : List Char)
+    (h : indexOf kind (idxText ix) = some (.str q)) (hq : (quoted '\'' q || quoted '"' q) = true) :
+    spellTok tSpell (respell fbSpell kind n ix) = respell tSpell kind n ix := by
+  unfold respell
+  rw [h]
+  simp only [spellTok, respell, idxText, indexOf_quoted q hq]
+
+/-- Decidable fragment: the index of a term is an integer (within CPython's digit limit) or a quoted period. -/
+def idxStableB (kind : Kind) (ix : Option IdxR) : Bool :=
+  match indexOf kind (idxText ix) with
+  | some (.int k) => !tooManyDigits (fbSpell k)
+  | some (.str q) => quoted '\'' q || quoted '"' q
+  | _ => false
+
+def Tok.stableB : Tok → Bool
+  | .var _ ix => idxStableB .variable ix
+  | .param _ _ _ ix => idxStableB .parameter ix
+  | .err _ _ _ ix => idxStableB .error ix
+  | _ => true
+
+theorem respell_stable (kind : Kind) (hk : kind = .variable ∨ kind = .parameter ∨ kind = .error) (n : List Char)
+    (ix : Option IdxR) (h : idxStableB kind ix = true) :
+    spellTok tSpell (respell fbSpell kind n ix) = respell tSpell kind n ix := by
+  unfold idxStableB at h
+  split at h
+  · rename_i k hk'
+    exact respell_stable_int kind hk n ix k hk' (by simpa using h)
+  · rename_i q hq'
+    exact respell_stable_str kind n ix q hq' h
+  · cases h
+
+/-- **stableB_sound**: for tokens of the fragment, re-spelling the feed-back form gives the re-spelling of the token. -/
+theorem Tok.stableB_sound (t : Tok) (h : t.stableB = true) :
+    spellTok tSpell (spellTok fbSpell t) = spellTok tSpell t := by
+  cases t with
+  | var n ix => exact respell_stable .variable (Or.inl rfl) n ix h
+  | param w1 n w2 ix => exact respell_stable .parameter (Or.inr (Or.inl rfl)) n ix h
+  | err w1 n w2 ix => exact respell_stable .error (Or.inr (Or.inr rfl)) n ix h
+  | func n w => rfl
+  | chunk cs => rfl
+  | lt => rfl
+  | kw k => rfl
+  | verb c1 body => rfl
+
 end Fsic.Lx
